@@ -43,6 +43,21 @@ theorem eth_floor (minGPraw typ gas gasPrice tip cap baseFee : Nat)
   simp only [h0, if_false, decide_eq_true_eq] at h
   exact h
 
+/-- a transaction carrying several Ethereum messages is accepted only if *every* message on its own offers at least
+    minGasPrice × its gas limit: an over-paying message cannot carry an under-paying one -/
+theorem eth_floor_every_message (minGPraw baseFee : Nat) (msgs : List (Nat × Nat × Nat × Nat × Nat))
+    (h : ethFloorAcceptTx minGPraw baseFee msgs = true) (h0 : minGPraw ≠ 0) :
+    ∀ m ∈ msgs, minGPraw * m.2.1 ≤
+      (if m.1 = 0 then m.2.2.1 * m.2.1 else effectivePrice (m.1 = 2) m.2.2.1 m.2.2.2.1 m.2.2.2.2 baseFee * m.2.1) * dec18 := by
+  intro m hm
+  unfold ethFloorAcceptTx at h
+  rw [List.all_eq_true] at h
+  exact eth_floor minGPraw m.1 m.2.1 m.2.2.1 m.2.2.2.1 m.2.2.2.2 baseFee (h m hm) h0
+
+/-- … and the sums alone would not do: two messages whose totals meet the aggregate floor, one of them below its own -/
+example : ethFloorAcceptTx (10 * dec18) 0 [(0, 100000, 19, 0, 0), (0, 100000, 1, 0, 0)] = false ∧
+    (10 * dec18) * (100000 + 100000) ≤ (19 * 100000 + 1 * 100000) * dec18 := by decide
+
 /-- an Ethereum tx whose fee cap is below the base fee is refused; otherwise the up-front fee is
     effectivePrice × gasLimit and the effective price lies between base fee and cap (dynamic) -/
 theorem eth_cap_ge_base (typ gas gasPrice tip cap baseFee fee : Nat)
